@@ -102,6 +102,13 @@ def FrameD (d d' : Disk) (q0 : Path) : Prop :=
 
 theorem FrameD.refl (d : Disk) (q0 : Path) : FrameD d d q0 := fun _ _ => rfl
 
+/-- the union of `d'` shows everywhere what the union of `d` shows, up to xattrs -/
+def ViewD (d d' : Disk) : Prop := ∀ q, (merge d' q).dropX = (merge d q).dropX
+
+theorem ViewD.refl (d : Disk) : ViewD d d := fun _ => rfl
+
+theorem ViewD.frame {d d' : Disk} (h : ViewD d d') (q0 : Path) : FrameD d d' q0 := fun q _ => h q
+
 theorem FrameX.toD {q0 : Path} {s s' : St} (h : FrameX q0 s s') : FrameD s.disk s'.disk q0 := h
 
 theorem ViewX.toD {s s' : St} (h : ViewX s s') (q0 : Path) : FrameD s.disk s'.disk q0 := fun q _ => h q
